@@ -297,6 +297,34 @@ def identity(i: int, x: int, y: int, z: int) -> bool:
     return _norm(l.format(**sub)) == _norm(r.format(**sub))
 
 
+QUOTED_ATOMS = ["`a:b`", "`a+b`", "`a b`", "`b:a`", "`a*b`", "`a.1`", "`c - 1`", "`(a)`"]
+
+
+def _rename(o, old, new):
+    if isinstance(o, dict):
+        return {k: _rename(v, old, new) for k, v in o.items()}
+    if isinstance(o, tuple) and (not o or not isinstance(o[0], str)):
+        return tuple(_rename(v, old, new) for v in o)
+    if isinstance(o, list):
+        return sorted(tuple(sorted(new if f == old else f for f in t)) for t in o)
+    return o
+
+
+def quoted_atom(i: int, q: int, y: int, z: int) -> bool:
+    """
+    pre: 0 <= i < 40 and 0 <= q < 8 and 0 <= y < 3 and 0 <= z < 3 and i == __SHARD__
+    post: _
+    """
+    # a back-tick quoted name is ONE variable whatever characters it holds: every documented expansion treats it exactly like a
+    # plain name (the reading with a fresh name q0, renamed afterwards) - it never merges with the interaction / sum it spells
+    i, q, y, z = _pick(i, 0, 39), _pick(q, 0, 7), _pick(y, 0, 2), _pick(z, 0, 2)
+    names = ["a", "b", "c"]
+    l, _ = IDENTITIES[i]
+    got = _norm(l.format(x=QUOTED_ATOMS[q], y=names[y], z=names[z]))
+    want = _norm(l.format(x="q0", y=names[y], z=names[z]))
+    return _rename(got, None, None) == _rename(want, "q0", QUOTED_ATOMS[q][1:-1])
+
+
 FORMS = [
     # (string, list of term strings, lhs/rhs keyword form or None)
     ("{x} + {y}:{z}", ["1", "{x}", "{y}:{z}"], None),
@@ -358,6 +386,10 @@ def explain(fname, call):
             l, r = IDENTITIES[args[0]]
             sub = dict(x="abc"[args[1]], y="abc"[args[2]], z="abc"[args[3]])
             return f"identity: {l.format(**sub)!r} gives {_norm(l.format(**sub))} but {r.format(**sub)!r} gives {_norm(r.format(**sub))}"
+        if fname == "quoted_atom":
+            l, _ = IDENTITIES[args[0]]
+            f = l.format(x=QUOTED_ATOMS[args[1]], y="abc"[args[2]], z="abc"[args[3]])
+            return f"quoted-atom: {f!r} gives {_norm(f)}, the same formula with a plain name in place of {QUOTED_ATOMS[args[1]]} gives {_norm(l.format(x='q0', y='abc'[args[2]], z='abc'[args[3]]))}"
     except Exception as e:
         return f"{fname}{args}: {type(e).__name__}: {e}"
     return f"{fname} fails for {args}"
